@@ -105,6 +105,11 @@ pub trait Property: Sync {
     fn extra_coverage(&self, _tier: Tier) -> Map<String, Json> {
         Map::new()
     }
+    /// second opinion on a failing case before it is reported (slow external oracles); Err = drop the
+    /// case as an oracle disagreement
+    fn confirm(&self, _case: &Json, _key: &str) -> Result<(), String> {
+        Ok(())
+    }
     /// key used for an abort (signal / cpu limit) on this case
     fn abort_key(&self, _case: &Json, what: &str) -> String {
         format!("abort.{}", what)
@@ -271,6 +276,8 @@ pub fn run_worker(p: &dyn Property, tier: Tier, shard: usize, nshards: usize, sk
     let budget = p.cpu_budget_s();
     let mut seq: u64 = 0;
     let mut reported_keys: BTreeSet<String> = BTreeSet::new();
+    // keys whose failing cases the second-opinion oracle refused twice: no longer shrunk/confirmed, only counted
+    let mut unconfirmed: BTreeMap<String, u32> = BTreeMap::new();
     let max_viol = 4usize;
 
     let fixed = p.fixed_cases(tier);
@@ -294,9 +301,17 @@ pub fn run_worker(p: &dyn Property, tier: Tier, shard: usize, nshards: usize, sk
         if let Verdict::Fail { key, detail } = v {
             if known.is_open(p.id(), &key) {
                 *stats.known_hits.entry(key).or_insert(0) += 1;
-            } else if reported_keys.insert(key.clone()) {
-                stats.violations.push(json!({"key": key, "detail": detail, "case": case, "shrunk": false, "origin": "fixed"}));
-                write_stats(out, &stats, seq, false);
+            } else if !reported_keys.contains(&key) {
+                match p.confirm(case, &key) {
+                    Ok(()) => {
+                        reported_keys.insert(key.clone());
+                        stats.violations.push(json!({"key": key, "detail": detail, "case": case, "shrunk": false, "origin": "fixed"}));
+                        write_stats(out, &stats, seq, false);
+                    }
+                    Err(why) => {
+                        *stats.discards.entry(format!("unconfirmed:{}", why)).or_insert(0) += 1;
+                    }
+                }
             }
         }
         if last_flush.elapsed().as_millis() > 500 {
@@ -329,6 +344,8 @@ pub fn run_worker(p: &dyn Property, tier: Tier, shard: usize, nshards: usize, sk
         if let Verdict::Fail { key, detail } = v {
             if known.is_open(p.id(), &key) {
                 *stats.known_hits.entry(key).or_insert(0) += 1;
+            } else if unconfirmed.get(&key).copied().unwrap_or(0) >= 2 {
+                *stats.discards.entry(format!("unconfirmed-key:{}", key)).or_insert(0) += 1;
             } else if !reported_keys.contains(&key) {
                 // shrink: accept any failing candidate whose key is not an open known finding
                 let mut best = case.clone();
@@ -365,9 +382,21 @@ pub fn run_worker(p: &dyn Property, tier: Tier, shard: usize, nshards: usize, sk
                     }
                 }
                 stats.shrink_steps += steps;
+                // second opinion: on the shrunk case first, on the original case otherwise
+                let (rep_case, rep_key, rep_detail, was_shrunk) = match p.confirm(&best, &best_key) {
+                    Ok(()) => (best, best_key, best_detail, true),
+                    Err(why1) => match p.confirm(&case, &key) {
+                        Ok(()) => (case.clone(), key.clone(), detail.clone(), false),
+                        Err(_) => {
+                            *stats.discards.entry(format!("unconfirmed:{}", why1)).or_insert(0) += 1;
+                            *unconfirmed.entry(key.clone()).or_insert(0) += 1;
+                            continue;
+                        }
+                    },
+                };
                 reported_keys.insert(key.clone());
-                reported_keys.insert(best_key.clone());
-                stats.violations.push(json!({"key": best_key, "detail": best_detail, "case": best, "shrunk": true,
+                reported_keys.insert(rep_key.clone());
+                stats.violations.push(json!({"key": rep_key, "detail": rep_detail, "case": rep_case, "shrunk": was_shrunk,
                     "origin": "generated", "original_key": key, "shard": shard, "index": i}));
                 if stats.violations.len() >= max_viol {
                     write_stats(out, &stats, seq, true);
